@@ -932,8 +932,10 @@ def crash_failures(sessions, real, label='expression'):
         for j, x in enumerate(r):
             if x.startswith('PANIC') or x.startswith('DRIVER-DIED'):
                 req = s[j] if j < len(s) else s[-1]
-                text = unhex(req.split(' ', 1)[1]).decode('utf-8', 'replace') if req.startswith('eval ') else req
-                out.append({label: text, 'problem': 'the interpreter panicked or died: ' + (unhex(x.split(' ')[1]).decode('utf-8', 'replace') if x.startswith('PANIC ') else x)[:300]})
+                text = unhex(req.split(' ', 1)[1]).decode('utf-8', 'replace') if req.startswith(('eval ', 'evalstop ')) else req
+                why = ('the interpreter did not return from this request (hang): ' + x) if 'timeout' in x else \
+                      ('the interpreter panicked or died: ' + (unhex(x.split(' ')[1]).decode('utf-8', 'replace') if x.startswith('PANIC ') else x)[:300])
+                out.append({label: text, 'session': [l if len(l) < 200 else l[:200] + '…' for l in s[:j + 1]], 'problem': why})
                 break
     return out
 
@@ -1657,6 +1659,19 @@ def c06_native_calls(rng, tier):
         for _ in range(40 if tier == 'quick' else 400):
             k = rng.randint(3, 5)
             calls.append(f'({nat} ' + ' '.join(rng.choice(SHAPES) for _ in range(k)) + ')')
+    # arguments that are RELATED to each other: a structured value together with one of its own components (the key that is
+    # the last element of an odd property list, an element of the list it is looked up in, a tail of the list it is appended to …)
+    composite = ["'(a 1 b 2)", "'(a 1 b)", "'(1 a)", "'(k)", "'(a 1 a)", "(list 'kind)", "'(kind k source)", "'((a . 1) (b . 2))", '"str"', "'(1 2 3)", "(cons 1 (cons 2 3))"]
+    projections = ["(car x)", "(car (cdr x))", "(car (cdr (cdr x)))", "(cdr x)", "(eval (trap (last x) 'none))", "x"]
+    for nat in NATIVES40:
+        if nat in ('receive', 'abort', 'gensym', 'get-current-module'):
+            continue
+        for cshape in composite:
+            for pr in projections:
+                body1 = f"({nat} x (eval (trap {pr} 'none)))"
+                body2 = f"({nat} (eval (trap {pr} 'none)) x)"
+                calls.append(f"((lambda (x) {body1}) {cshape})")
+                calls.append(f"((lambda (x) {body2}) {cshape})")
     # hand-made functions and environments, called
     for f in ["(make-function '(x) 'x 5 'default 'lambda-type)", "(make-function '(x) '(y) '((y . 1) z (3)) 'default 'lambda-type)", "(make-function '(&) 1 () 'default 'lambda-type)",
               "(make-function '(a & b) '(list a b) () 'default 'macro-type)", "(unrest (lambda (a & b) b))", "(make-function '(q) '(q) (cons 1 2) 'zz 'lambda-type)"]:
@@ -1693,6 +1708,21 @@ def c06_correspond(run, rng, tier):
     real, model = both(sessions, timeout=600)
     diffs = compare(sessions, real, model)
     failures = crash_failures(sessions, real)
+    # a batch that died is taken apart: every form on its own, to name the one that kills the interpreter
+    isolated = []
+    for f in failures[:6]:
+        forms = [l for l in f['expression'].split('\n') if l.strip()]
+        if len(forms) < 2:
+            continue
+        single = [['new prelude', 'stdin ' + hexs('line one\n'), 'eval ' + hexs(l)] for l in forms]
+        rr = run_sessions(real_cmd(), single, 300, 12)
+        for l, r in zip(forms, rr):
+            if any(x.startswith('PANIC') or x.startswith('DRIVER-DIED') for x in r):
+                msg = next(x for x in r if x.startswith('PANIC') or x.startswith('DRIVER-DIED'))
+                isolated.append({'expression': l, 'problem': 'the interpreter panicked or died: ' + (unhex(msg.split(' ')[1]).decode('utf-8', 'replace') if msg.startswith('PANIC ') else msg)[:300]})
+    if isolated:
+        seen = set()
+        failures = [x for x in isolated if not (x['expression'] in seen or seen.add(x['expression']))] + failures
     for s, r in zip(sessions, real):
         if r and r[-1].startswith('LEAK'):
             failures.append({'expression': unhex(s[2].split(' ')[1]).decode()[:400], 'problem': 'handle audit / heap invariants after the run: ' + r[-1][:200]})
@@ -1747,11 +1777,12 @@ def c05_correspond(run, rng, tier):
     failures = crash_failures(sessions, real)
     dist = {'ok': 0, 'sig': 0, 'outside-reference': 0}
     sigkinds = {}
-    for p, r in zip(progs, real):
+    def judge(p, r, count=True):
+        """None when the real outcome of program p is what the reference evaluator computes (or p is outside the reference)"""
         exp = ref_eval.run_program(p) if 'trap' not in p and 'macro' not in p else None
         if exp is None:
-            dist['outside-reference'] += 1
-            continue
+            if count: dist['outside-reference'] += 1
+            return None
         res, _ = parse_eval(r[1] if len(r) > 1 else '')
         got = []
         for (kind, printed, dump) in (res or []):
@@ -1762,15 +1793,38 @@ def c05_correspond(run, rng, tier):
                 got.append(('sig', m.group(1), m.group(2)) if m else ('sig', re.sub(r'0x[0-9a-f]+', '0x?', printed), ''))
             else:
                 got.append((kind,))
-        for e in exp:
-            dist[e[0]] = dist.get(e[0], 0) + 1
-            if e[0] == 'sig':
-                key = e[1] if e[2] else 'user-signal'
-                sigkinds[key] = sigkinds.get(key, 0) + 1
+        if count:
+            for e in exp:
+                dist[e[0]] = dist.get(e[0], 0) + 1
+                if e[0] == 'sig':
+                    key = e[1] if e[2] else 'user-signal'
+                    sigkinds[key] = sigkinds.get(key, 0) + 1
         if got != exp:
             i = next((k for k in range(min(len(got), len(exp))) if got[k] != exp[k]), min(len(got), len(exp)))
-            failures.append({'expression': p, 'form_index': i, 'expected': list(exp[i]) if i < len(exp) else None, 'real': list(got[i]) if i < len(got) else None,
-                             'problem': 'the interpreter and the reference evaluator of the core language disagree'})
+            return {'expression': p, 'form_index': i, 'expected': list(exp[i]) if i < len(exp) else None, 'real': list(got[i]) if i < len(got) else None,
+                    'problem': 'the interpreter and the reference evaluator of the core language disagree'}
+        return None
+    for p, r in zip(progs, real):
+        f = judge(p, r)
+        if f:
+            failures.append(f)
+    # the first failures are shrunk (greedy subtree replacement, re-judged by the same oracle on the real interpreter)
+    from gen import shrink
+    def still_fails(cands):
+        ss = eval_sessions(cands, flags='')
+        rr = run_sessions(real_cmd(), ss, 120, 6)
+        return [judge(c, r, count=False) is not None for c, r in zip(cands, rr)]
+    for f in [f for f in failures if 'expected' in f][:3]:
+        try:
+            small = shrink.shrink(f['expression'], still_fails)
+            if small != f['expression']:
+                f['original_expression'] = f['expression']
+                f['expression'] = small
+                again = judge(small, run_sessions(real_cmd(), eval_sessions([small], flags=''), 120, 1)[0], count=False)
+                if again:
+                    f['expected'], f['real'], f['form_index'] = again['expected'], again['real'], again['form_index']
+        except Exception as e:
+            f['shrink_error'] = str(e)[:200]
     dist['signal-kinds'] = sigkinds
     dist['generator'] = {k: stats.get(k, 0) for k in ('lambda', 'shadow', 'restparam', 'hocall', 'fault', 'define', 'var', 'eval')}
     return {'evaluations': n, 'distinct_nontrivial': len({p for p in progs if 'lambda' in p}),
@@ -2128,7 +2182,7 @@ def c16_correspond(run, rng, tier):
                     'value, signal kind and output trace compared between the real interpreter, the model and the documented meaning (Python); plus the closures bound by the current prelude.lisp (real vs model) and the generated constants the theorems are about',
             'samples': [progs[0], progs[20], progs[-6]], 'disagreements': diffs, 'oracle_failures': failures, 'distribution': dist, 'findings_seen': findings_seen}
 
-spec('C16', correspond=c16_correspond, replay=generic_replay, modules=['C16', 'C16b'],
+spec('C16', correspond=c16_correspond, replay=generic_replay, modules=['C16', 'C16b', 'C16c'],
      search=lambda run, rng, d: c16_correspond(run, random.Random(rng.random()), 'quick')['oracle_failures'],
      trusted=['the evaluator model is tied to eval/mod.rs by differential execution', 'Generated/Prelude.lean is regenerated from prelude.lisp on every run and compared with what the model binds (preludecheck)', 'the correspondence check'],
      assumptions=['foldr, init and concat are not tail recursive: lists longer than about half the depth limit raise stackoverflow (stated, not a deviation from the documentation)',
